@@ -111,7 +111,9 @@ class Module:
 
 
 class Model:
-    def __init__(self, repo=None):
+    def __init__(self, repo=None, overrides=None):
+        """overrides: {relative path: source text} — in-memory variants of files (sensitivity sweep); nothing is written."""
+        self.overrides = dict(overrides or {})
         self.repo = pathlib.Path(repo or REPO)
         self.modules = {}
         self.digest = hashlib.sha256()
@@ -124,7 +126,7 @@ class Model:
             if parts[-1] == "__init__":
                 parts = parts[:-1]
             name = ".".join(parts)
-            src = p.read_text()
+            src = self.overrides.get(str(rel)) if str(rel) in self.overrides else p.read_text()
             self.digest.update(str(rel).encode() + b"\0" + src.encode())
             try:
                 self.modules[name] = Module(name, p, str(rel), src)
